@@ -229,6 +229,14 @@ func (f *Frame) checkReturn(e Exit) {
 			}
 		}
 	}
+	if con.Rethrows {
+		goal := "true"
+		if vc.recVal != "" {
+			// a normal return of a deferred function stops a panic only if recover() was called directly by it
+			goal = fmt.Sprintf("(=> %s (= (iface_tag %s) 0))", vc.recCalled, vc.recVal)
+		}
+		vc.oblige("panic", fmt.Sprintf("%s#rethrows@%s", name, anchor), e.Cond, goal, f.pos(e.Pos), "a panic handler that has recovered a panic does not return normally (it panics again)")
+	}
 	env := f.envPost(e.St, f.resultBindings(e))
 	for i, en := range con.Ensures {
 		if en.Defines {
